@@ -9,6 +9,35 @@ use quote::ToTokens;
 use serde_json::json;
 use std::rc::Rc;
 
+/// the builder for `impl` items: takes (&ItemImpl) and returns Result<TokenStream>; when helpers share that
+/// shape, the one no other candidate calls (the root)
+pub fn impl_builder(ix: &Index) -> Option<Rc<FnDef>> {
+    let cands: Vec<Rc<FnDef>> = ix.fns.values().flatten().filter(|f| { let s = sig_text(f); s.contains("&ItemImpl") && s.contains("->Result<TokenStream>") }).cloned().collect();
+    if cands.len() <= 1 { return cands.into_iter().next(); }
+    let cg = crate::roles::CallGraph::build(ix);
+    let roots: Vec<Rc<FnDef>> = cands.iter().filter(|c| !cands.iter().any(|o| o.qual != c.qual && cg.edges.get(&o.qual).map(|e| e.contains(&c.qual)).unwrap_or(false))).cloned().collect();
+    if roots.len() == 1 { roots.into_iter().next() } else { None }
+}
+/// is `g` one of the impl-item builder's own helpers (same shape), which must be followed rather than summarised
+pub fn is_impl_helper(ix: &Index, g: &FnDef) -> bool {
+    let s = sig_text(g);
+    if !(g.self_ty.is_none() && s.ends_with("->Result<TokenStream>")) { return false; }
+    if s.contains("&ItemImpl") { return true; }
+    // a token-producing free function the impl builder reaches through functions of the same kind
+    let Some(root) = impl_builder(ix) else { return false };
+    let cg = crate::roles::CallGraph::build(ix);
+    let mut seen = vec![root.qual.clone()];
+    let mut i = 0;
+    while i < seen.len() {
+        for c in cg.edges.get(&seen[i]).cloned().unwrap_or_default() {
+            if seen.contains(&c) { continue; }
+            if let Some(h) = ix.get_fn(&c) { if h.self_ty.is_none() && sig_text(&h).ends_with("->Result<TokenStream>") { seen.push(c); } }
+        }
+        i += 1;
+    }
+    seen.contains(&g.qual)
+}
+
 pub fn sig_text(f: &FnDef) -> String { f.sig.to_token_stream().to_string().replace(' ', "") }
 
 /// find the single function whose signature text satisfies the predicate
@@ -328,6 +357,9 @@ pub fn error_isolation_rule(cx: &Cx, rep: &mut Report, prop: &str) {
 fn struct_field_of_type(ix: &Index, st: &str, ty_contains: &str) -> Option<String> {
     ix.structs.get(st)?.fields.iter().find(|(_, t)| crate::index::ty_str(t).contains(ty_contains)).map(|(n, _)| n.clone())
 }
+fn canon_field(ix: &Index, st: &str, ty_contains: &str) -> Option<String> {
+    struct_field_of_type(ix, st, ty_contains).map(|r| ix.canon_name(st, &r))
+}
 fn notes(st: &St) -> Vec<String> {
     st.events.iter().filter_map(|e| if let Event::Note(n) = e { Some(n.clone()) } else { None }).collect()
 }
@@ -351,8 +383,10 @@ pub fn bound_parse_rule(cx: &Cx, rep: &mut Report) {
         seen.insert(var, notes(st));
     }
     let has = |v: &str, pat: &str| seen.get(v).map(|ns| ns.iter().any(|n| n.replace(' ', "").contains(pat))).unwrap_or(false);
-    rep.check(has("Type", &format!("mutcall$this.{fty}.push($bound.Type)")), "DM-bound-parse", &pushf.qual, "type-item", "a type written in bound(...) is not recorded as a type to be bounded by the trait", &site(&pushf), json!({"effects": format!("{:?}", seen.get("Type"))}));
-    rep.check(has("Pred", &format!("mutcall$this.{fpred}.push($bound.Pred)")), "DM-bound-parse", &pushf.qual, "predicate-item", "a predicate written in bound(...) is not recorded verbatim", &site(&pushf), json!({"effects": format!("{:?}", seen.get("Pred"))}));
+    let (cty, cpred, cdef) = (ix.canon_name("Bounds", &fty), ix.canon_name("Bounds", &fpred), ix.canon_name("Bounds", &fdef));
+    rep.check(has("Type", &format!("mutcall$this.{cty}.push($bound.Type)")), "DM-bound-parse", &pushf.qual, "type-item", "a type written in bound(...) is not recorded as a type to be bounded by the trait", &site(&pushf), json!({"effects": format!("{:?}", seen.get("Type"))}));
+    rep.check(has("Pred", &format!("mutcall$this.{cpred}.push($bound.Pred)")), "DM-bound-parse", &pushf.qual, "predicate-item", "a predicate written in bound(...) is not recorded verbatim", &site(&pushf), json!({"effects": format!("{:?}", seen.get("Pred"))}));
+    let _ = &cdef;
     rep.check(has("Default", &format!("field-assignself.{fdef}")) && !has("Type", "field-assign") && !has("Pred", "field-assign"), "DM-bound-parse", &pushf.qual, "dotdot-item", "`..` in bound(...) does not (only) re-enable the lower-priority levels", &site(&pushf), json!({"effects": format!("{:?}", seen.get("Default"))}));
     // `..` must set the flag to true
     {
@@ -392,10 +426,11 @@ pub fn bound_parse_rule(cx: &Cx, rep: &mut Report) {
 /// DM-wcb: the where-clause builder records what is pushed and emits all of it
 pub fn wcb_rule(cx: &Cx, rep: &mut Report) {
     let ix = &cx.ix;
-    let (Some(wt), Some(wp)) = (struct_field_of_type(ix, "WhereClauseBuilder", "Vec<Type>"), struct_field_of_type(ix, "WhereClauseBuilder", "Vec<WherePredicate>")) else {
+    let (Some(wt_real), Some(wp_real)) = (struct_field_of_type(ix, "WhereClauseBuilder", "Vec<Type>"), struct_field_of_type(ix, "WhereClauseBuilder", "Vec<WherePredicate>")) else {
         rep.fail("unanalysable", "WhereClauseBuilder", "fields", "struct WhereClauseBuilder { Vec<Type>, Vec<WherePredicate>, .. } not found", "bound.rs", json!({})); return;
     };
-    let (Some(bt), Some(bp), Some(bd)) = (struct_field_of_type(ix, "Bounds", "Vec<Type>"), struct_field_of_type(ix, "Bounds", "Vec<WherePredicate>"), struct_field_of_type(ix, "Bounds", "bool")) else { return };
+    let (wt, wp) = (ix.canon_name("WhereClauseBuilder", &wt_real), ix.canon_name("WhereClauseBuilder", &wp_real));
+    let (Some(bt), Some(bp), Some(bd)) = (canon_field(ix, "Bounds", "Vec<Type>"), canon_field(ix, "Bounds", "Vec<WherePredicate>"), canon_field(ix, "Bounds", "bool")) else { return };
     let mut ev = mk_ev(ix);
     ev.push_fns.clear();
     let wsym = sym("WhereClauseBuilder", "wcb");
@@ -452,16 +487,17 @@ pub fn wcb_rule(cx: &Cx, rep: &mut Report) {
         ev2.open_at_top.replace(Some(f.qual.clone()));
         let outs = ev2.call_fn(St::new(), &f, None, vec![sym("Generics", "generics")]);
         let mut ok = false;
+        let mut bad = false;
         for (st, fl) in &outs {
             let Flow::Val(Val::Struct { fields, .. }) = fl else { continue };
-            let has_where = st.cond.iter().any(|(a, b)| *b && a.contains("split_for_impl"));
-            let pv = fields.iter().find(|(n, _)| *n == wp).map(|(_, v)| v.clone()).unwrap_or(Val::Unit);
-            let tv = fields.iter().find(|(n, _)| *n == wt).map(|(_, v)| v.short()).unwrap_or_default();
+            let has_where = st.cond.iter().any(|(a, b)| a.contains("split_for_impl") && ((*b && !a.ends_with(" is None")) || (!*b && a.ends_with(" is None"))));
+            let pv = fields.iter().find(|(n, _)| *n == wp_real).map(|(_, v)| v.clone()).unwrap_or(Val::Unit);
+            let tv = fields.iter().find(|(n, _)| *n == wt_real).map(|(_, v)| v.short()).unwrap_or_default();
             if has_where {
-                ok = pv.any(&|y| matches!(y, Val::Opaque { what, .. } if what.contains("predicates"))) && pv.any(&|y| matches!(y, Val::Sym { path, .. } if path == "generics")) && tv == "L[]";
-            }
+                if pv.any(&|y| matches!(y, Val::Opaque { what, .. } if what.contains("predicates"))) && pv.any(&|y| matches!(y, Val::Sym { path, .. } if path == "generics")) && tv == "L[]" { ok = true; } else { bad = true; }
+            } else if pv.short() != "L[]" || tv != "L[]" { bad = true; }
         }
-        rep.check(ok, "DM-wcb", &f.qual, "new", "the builder does not start from exactly the type's own where-predicates", &site(&f), json!({}));
+        rep.check(ok && !bad, "DM-wcb", &f.qual, "new", "the builder does not start from exactly the type's own where-predicates", &site(&f), json!({"paths": outs.iter().map(|(st, fl)| format!("[{}] {}", crate::model::cond_str(&st.cond), match fl { Flow::Val(v) => v.short(), _ => "?".into() })).collect::<Vec<_>>()}));
     } else { rep.fail("unanalysable", "WhereClauseBuilder", "new", "constructor (&Generics) -> Self not found", "bound.rs", json!({})); }
     rep.unanalysable("WhereClauseBuilder", &ev.unsupported.borrow());
 }
